@@ -303,7 +303,30 @@ class Interp:
         try:
             return self.module_global(fi.module, name)
         except Unsupported:
+            if name in self._local_names(fi):
+                # a local variable read on a path that never bound it: Python raises UnboundLocalError there
+                raise RepoRaise("UnboundLocalError", node, self.where(node), (f"local variable {name!r} referenced before assignment",))
             raise Unsupported(f"unresolved name {name!r} at {self.where(node)}")
+
+    def _local_names(self, fi):
+        cache = self.__dict__.setdefault("_locals_cache", {})
+        key = id(getattr(fi, "node", None))
+        if key not in cache:
+            names = set()
+            nd = getattr(fi, "node", None)
+            if isinstance(nd, (ast.FunctionDef, ast.AsyncFunctionDef, ast.Lambda)):
+                stack = list(nd.body) if not isinstance(nd, ast.Lambda) else []
+                while stack:
+                    x = stack.pop()
+                    if isinstance(x, (ast.FunctionDef, ast.AsyncFunctionDef, ast.ClassDef, ast.Lambda)):
+                        if hasattr(x, "name"):
+                            names.add(x.name)
+                        continue
+                    if isinstance(x, ast.Name) and isinstance(x.ctx, (ast.Store, ast.Del)):
+                        names.add(x.id)
+                    stack.extend(ast.iter_child_nodes(x))
+            cache[key] = names
+        return cache[key]
 
     # ------------------------------------------------------------------ calls
     def call(self, f, args, kwargs, node=None):
